@@ -33,10 +33,25 @@ impl tracing_core::Collect for Quiet {
 
 fn take() -> String { let mut r = RECS.lock().unwrap(); let v: Vec<String> = r.drain(..).collect(); if v.is_empty() { "-".into() } else { v.join(",") } }
 
-macro_rules! ev { ($l:expr, $a:expr, $b:expr, $n:expr) => { tracing::event!(target: "tgt_ev", $l, a = $a, b = %$b, "msg {}", $n) }; }
-macro_rules! sp { ($l:expr, $k:expr) => {{
+// every way of writing the same event / span (the macro arms differ; what is logged must not): the form is a function of the
+// first field's value
+macro_rules! ev { ($l:expr, $m:ident, $a:expr, $b:expr, $n:expr) => { match $a % 6 {
+    0 => tracing::event!(target: "tgt_ev", $l, a = $a, b = %$b, "msg {}", $n),
+    1 => tracing::event!(target: "tgt_ev", parent: None, $l, a = $a, b = %$b, "msg {}", $n),
+    2 => tracing::event!(name: "ev_name", target: "tgt_ev", $l, a = $a, b = %$b, "msg {}", $n),
+    3 => tracing::event!(name: "ev_name", target: "tgt_ev", parent: None, $l, a = $a, b = %$b, "msg {}", $n),
+    4 => tracing::$m!(target: "tgt_ev", a = $a, b = %$b, "msg {}", $n),
+    _ => tracing::$m!(target: "tgt_ev", parent: None, a = $a, b = %$b, "msg {}", $n),
+} }; }
+macro_rules! sp { ($l:expr, $m:ident, $k:expr) => {{
     let mut outs = Vec::new();
-    let s = tracing::span!(target: "tgt_sp", $l, "my_span", k = $k); outs.push(take());
+    let s = match $k % 4 {
+        0 => tracing::span!(target: "tgt_sp", $l, "my_span", k = $k),
+        1 => tracing::span!(target: "tgt_sp", parent: None, $l, "my_span", k = $k),
+        2 => tracing::$m!(target: "tgt_sp", "my_span", k = $k),
+        _ => tracing::$m!(target: "tgt_sp", parent: None, "my_span", k = $k),
+    };
+    outs.push(take());
     let g = s.enter(); outs.push(take());
     drop(g); outs.push(take());
     drop(s); outs.push(take());
@@ -56,12 +71,12 @@ fn main() {
         let o = match op[0] {
             "ev" => {
                 let a: u64 = op[2].parse().unwrap(); let b = unhex(op[3]); let n: i64 = op[4].parse().unwrap();
-                match op[1] { "1" => ev!(Level::ERROR, a, b, n), "2" => ev!(Level::WARN, a, b, n), "3" => ev!(Level::INFO, a, b, n), "4" => ev!(Level::DEBUG, a, b, n), _ => ev!(Level::TRACE, a, b, n) }
+                match op[1] { "1" => ev!(Level::ERROR, error, a, b, n), "2" => ev!(Level::WARN, warn, a, b, n), "3" => ev!(Level::INFO, info, a, b, n), "4" => ev!(Level::DEBUG, debug, a, b, n), _ => ev!(Level::TRACE, trace, a, b, n) }
                 take()
             }
             "sp" => {
                 let k: u64 = op[2].parse().unwrap();
-                match op[1] { "1" => sp!(Level::ERROR, k), "2" => sp!(Level::WARN, k), "3" => sp!(Level::INFO, k), "4" => sp!(Level::DEBUG, k), _ => sp!(Level::TRACE, k) }
+                match op[1] { "1" => sp!(Level::ERROR, error_span, k), "2" => sp!(Level::WARN, warn_span, k), "3" => sp!(Level::INFO, info_span, k), "4" => sp!(Level::DEBUG, debug_span, k), _ => sp!(Level::TRACE, trace_span, k) }
             }
             "sd" => { guards.push(tracing::dispatch::set_default(&tracing::Dispatch::new(Quiet))); take() }
             "dg" => { guards.pop(); take() }
